@@ -6,7 +6,8 @@ MODEL = Models/HeadingF.v (binary64, PrimFloat), evaluated by coqc/vm_compute on
 
 failing-input search (IMPL vs exact SPEC), for every generated input x and both functions, degrees and radians:
   * the call returns a finite real number (scalar) / an array of the input's shape,
-  * RANGE, exactly: heading in [0, 360) resp. [0, 2 pi); yaw in [-180, 180) resp. [-pi, pi),
+  * RANGE, exactly: heading in [0, 360) resp. [0, 2 pi); yaw in [-180, 180) resp. [-pi, pi) (radian bounds are the
+    binary64 constants 2*math.pi / math.pi: +math.pi is excluded like +180.0),
   * CLOSENESS: the circular distance between the returned value and the exact wrap(quarter_turn - x) is at most
     TOL_ULPS ulp at the scale max(|x|, SCALE) (SCALE = 512 for degrees, 8 for radians: the binade of a full turn
     plus one, because the code computes through `+ 360.0`).  The subtraction `90.0 - x` alone already costs half
@@ -116,6 +117,14 @@ def rad_points(ctx):
     pts += [(k / float(step), 'grid-1/%d' % step) for k in grid]
     pts += common_points(r, 4000 if ctx.thorough else 500, 1e6)
     return pts
+
+
+def sem_points(pts, n=240):
+    """inputs for the array calling-convention observations: corpus + an even sample, moderate magnitudes only
+    (they are also cast to float32 / int64)"""
+    ok = [x for x, _ in pts if abs(x) <= 1e6 and (x == 0.0 or abs(x) >= 1e-6)]
+    step = max(1, len(ok) // n)
+    return (ok[:40] + ok[40::step])[:n + 40]
 
 
 def corpus_points():
@@ -238,7 +247,11 @@ def simplicity(x):
 def judge(unit, which, x, rh, spec):
     """classify one IMPL return value against the exact SPEC. returns None or (class, text)."""
     H = HALF_TURN[unit]; P = 2 * H
-    lo, hi = (Fraction(0), P) if which == 'y2h' else (-H, H)
+    # range bounds: exact for degrees; for radians the binary64 constants math.pi / 2*math.pi (the largest doubles below
+    # pi / 2 pi), so that +math.pi itself is outside [-pi, pi) exactly as +180.0 is outside [-180, 180) - the radian
+    # variant must agree with the degree variant at the wrap point; this is the range proved for the model.
+    HB = H if unit == 'deg' else Fraction(math.pi)
+    lo, hi = (Fraction(0), 2 * HB) if which == 'y2h' else (-HB, HB)
     name = '%s(%s, deg=%s)' % (FN[which], repr(x), unit == 'deg')
     if rh.startswith('EXC:'):
         return 'exception', '%s raised %s' % (name, rh[4:])
@@ -301,7 +314,8 @@ def run(ctx):
     corp = corpus_points()
     pts = {'deg': dedup(corp['deg'] + deg_points(ctx)), 'rad': dedup(corp['rad'] + rad_points(ctx))}
     ctx.log('points: %d deg, %d rad' % (len(pts['deg']), len(pts['rad'])))
-    impl = run_impl(ctx, {u: [x.hex() for x, _ in pts[u]] for u in pts})
+    sem = {u: sem_points(pts[u]) for u in pts}
+    impl = run_impl(ctx, dict({u: [x.hex() for x, _ in pts[u]] for u in pts}, sem={u: [x.hex() for x in sem[u]] for u in sem}))
     ctx.log('IMPL done')
 
     failures = {}      # signature-key -> (simplicity, sig, text, case)
@@ -353,6 +367,17 @@ def run(ctx):
                     fail({'fn': 'roundtrip', 'unit': unit, 'class': 'not-inverse-modulo-full-turn', 'order': key},
                          '%s = %r for x = %r (%s): not x modulo a full turn' % (names, r, x, unit),
                          {'fn': 'roundtrip-' + key, 'unit': unit, 'x_hex': x.hex(), 'x': repr(x), 'impl': rh}, x)
+    # calling conventions of the array form (input untouched, no aliasing, shapes, repeatability, array round trips)
+    for it in impl.get('array_semantics', []):
+        ctx.count('violation:array-semantics:' + it['issue'])
+        k = json.dumps({'fn': it['fn'], 'unit': it['unit'], 'class': it['issue'], 'input_kind': it['input_kind']}, sort_keys=True)
+        if k not in failures:
+            failures[k] = ((0, 0.0), {'fn': it['fn'], 'unit': it['unit'], 'class': it['issue'], 'input_kind': it['input_kind']},
+                           '%s, %s, %s input: %s' % (it['fn'], it['unit'], it['input_kind'], it['detail']),
+                           {'fn': it['fn'], 'unit': it['unit'], 'semantics': True, 'input_kind': it['input_kind'], 'issue': it['issue'],
+                            'detail': it['detail'], 'inputs_hex': [x.hex() for x in sem[it['unit']]]})
+    for u in sem:
+        ctx.count('array-semantics inputs:%s' % u, len(sem[u]))
     # advisory: which unit a call without `deg` uses (not part of the property; never an alarm)
     du = impl.get('default_unit', {})
     for which in ('y2h', 'h2y'):
@@ -383,7 +408,7 @@ def run(ctx):
                     if not any(s.startswith(('EXC', 'TYPE')) for s in impl['y2h_' + u]['scalar']) else 'n/a'})
     ctx.coverage['rule'] = ('degrees: every multiple of 45 in [-1080,1080]; %s of the grid k/64 over that interval; 4 nextafter neighbours on each side of every multiple of 90 in it '
                             'and of 0/90/180/270 + 360k for k = +-10, +-1000, 12345, -2912, +-2^20; +-2^k for k=-60..60; 2^100..2^1023, DBL_MAX; denormals and DBL_MIN; +-0; '
-                            'uniform and log-uniform random magnitudes up to 1e6.  radians: the same with multiples of pi/4, neighbours of k*pi/2 computed three ways '
+                            'uniform and log-uniform random magnitudes up to 1e6.  Array calling conventions (input bit-identical after the call, result not sharing memory with it, shape, repeatability, int arrays, array round trips reusing the original object) on ~280 inputs per unit as float64 1-D / strided view / 2-D / transposed view / 0-d / 1-element / read-only, float32, int64, list.  radians: the same with multiples of pi/4, neighbours of k*pi/2 computed three ways '
                             '(k*math.pi/2, k*(math.pi/2), correctly rounded k*pi/2), grid step 1/%d over [-19,19].  Each input is evaluated by both functions as Python float, '
                             'numpy scalar, 1-D array and strided 2-D array, compared with the exact SPEC (range exactly; closeness %d ulp at scale max(|x|, 512 deg / 8 rad)), '
                             'and bit-for-bit with the PrimFloat model.  A case is distinct by (function, unit, input bits).'
@@ -405,6 +430,16 @@ def replay(ctx, rec):
     case = rec.get('case', rec)
     if 'detail' in rec and 'case' in rec['detail']:
         case = rec['detail']['case']
+    if case.get('semantics'):
+        unit = case['unit']
+        impl = run_impl(ctx, {'deg': [], 'rad': [], 'sem': {unit: case['inputs_hex']}})
+        shutil_rm(ctx)
+        hits = [it for it in impl['array_semantics']]
+        for it in hits:
+            print('IMPL  %s, %s, %s input: %s: %s' % (it['fn'], it['unit'], it['input_kind'], it['issue'], it['detail']))
+        print('SPEC  a call leaves its argument untouched, returns a fresh array of the same shape, is repeatable, and agrees element-wise with the scalar calls')
+        print('recorded: %s / %s / %s' % (case['fn'], case['input_kind'], case['issue']))
+        return 1 if hits else 0
     if 'x_hex' not in case:
         print(json.dumps(rec, indent=1)[:3000]); return 0
     gen_c19.generate()
